@@ -1094,6 +1094,13 @@ func main() {
 	if run.Thorough() {
 		plan = append(plan, jobSpec{1, depth - 1})
 	}
+	if job := ev.Job(); strings.HasPrefix(job, "W:") {
+		var vi int
+		fmt.Sscanf(job, "W:%d", &vi)
+		exploreWriteOps(run, vi)
+		sopenv.Cleanup()
+		run.EmitPartial()
+	}
 	if job := ev.Job(); job != "" {
 		var v, m, a, b, d int
 		fmt.Sscanf(job, "%d:%d:%d:%d:%d", &v, &m, &a, &b, &d)
@@ -1123,6 +1130,9 @@ func main() {
 	for m := range modes {
 		jobs = append(jobs, fmt.Sprintf("0:%d:-1:0:%d", m, depth-1))
 	}
+	for vi := range writeOpsVariants() {
+		jobs = append(jobs, fmt.Sprintf("W:%d", vi))
+	}
 	dl := 20 * time.Minute
 	if run.Thorough() {
 		dl = 2 * time.Hour
@@ -1135,6 +1145,7 @@ func main() {
 	run.Set("max_sequence_length", depth)
 	run.Set("rule", "every call sequence of length 1..max over the alphabet on one transaction object, per mode, enumerated exactly once breadth-first; canonical form: item operations only once an OpenBtree returned a handle (they cannot be called otherwise), OpenBtree only while no handle exists; each case starts from a byte-identical restored store folder {1:v1,2:v2,3:v3}, cold caches, deterministic UUIDs; an undecided transaction is ended by an epilogue Rollback before the store is read back cold; distinct_nontrivial = sequences (all distinct by construction) of length >= 2 in which Begin succeeded")
 	run.Set("supplementary", "every sequence of length <= max-1 over {Begin, Commit, Rollback, NewBtree(t)} that contains NewBtree, per mode (store creation is a store operation: allowed only inside Begin..end, and in ForReading / NoCheck it must leave the folder byte-identical)")
+	run.Set("supplementary_write_methods", "mode {ForWriting (control), ForReading, NoCheck} x store {values in node, in separate segments, actively persisted; the last two also with values 2,3 rewritten by a later transaction} x cursor prelude {none, Find(2), Find(2)+GetCurrentValue, First+GetCurrentItem} x each of the wrapper's write methods {Add, AddIfNotExist, Upsert(existing), Upsert(new), Update, UpdateKey, UpdateCurrentValue, UpdateCurrentItem, UpdateCurrentKey, Remove, RemoveCurrentItem} x epilogue {Commit, Rollback}: in the two non-writer modes the store folder must stay byte-identical and read back cold unchanged")
 	run.Assumption("single transaction object and single thread per case; fault-free environment (in-memory L2 cache, tmpfs)")
 	run.Assumption("keys fixed per operation: Add(4), Update(2), Remove(3), Find(1)+GetCurrentValue on the unique store {1,2,3}; stores: slot length 4 with values in the node at full depth, slot length 4 with actively persisted values at depth-1; thorough also slot length 2 with values in separate segments at depth-1")
 	run.Assumption("statement says which calls MAY succeed: return values of lifecycle calls are judged only where the statement is explicit (Rollback after a successful commit must fail; store operations outside Begin..end must return an error or false); everything else is judged by the persisted effect: store content read cold must be the content before, or, iff a ForWriting Commit / Phase2Commit returned nil, the content with the writes acknowledged up to a Phase1Commit/Commit applied exactly once")
